@@ -16,7 +16,7 @@ import time
 from . import VERIF, REPO
 from .engine import Result, HarnessError, jdump, format_exception
 
-BACKSTOP_S = {'quick': 1500, 'thorough': 6 * 3600}
+BACKSTOP_S = {'quick': 3 * 3600, 'thorough': 12 * 3600}    # hang protection only; generous so that a loaded machine never trips it
 
 
 # ---------------------------------------------------------------------------
